@@ -33,73 +33,7 @@
 (*   case-insensitively.  Only for the design-level counterexample         *)
 (*   (MC_SigCheck_AsIs.cfg); conformance always runs against "required".   *)
 (***************************************************************************)
-EXTENDS Naturals, Sequences, FiniteSets, SigSerial
-
-CONSTANTS
-    M,              \* size of the serial number ring (a power of two)
-    Inc, Exp,       \* genuine validity window, in 0..M-1
-    IncAlt, ExpAlt, \* the values the "inc" / "exp" variants of the RRSIG carry
-    OrigTtl,        \* Original TTL field of the genuine RRSIG
-    OrigTtlAlt,     \* ... of the "origTtl" variant
-    RecTtls,        \* TTLs the records may arrive with
-    Steps,          \* amounts of time Advance may add
-    MaxMono,        \* bound on elapsed time (keeps the model finite)
-    MaxCalls,       \* bound on the number of calls in a history
-    ClkStarts,      \* clock values a history may start at
-    ArgSet,         \* the argument tuples in use (a subset of Args)
-    RRV, SIGV, KEYV,\* the variants in use (subsets of the sets below)
-    NameCaseSigned, \* TRUE iff the RRset's type keeps the case of embedded names in the signed data
-    CacheRule       \* "required" | "asis"
-
-AllRRV  == {"genuine", "ownerCase", "owner", "class", "type", "rdataBit", "rdataNameCase", "addRecord", "dropRecord"}
-AllSIGV == {"genuine", "signerCase", "origTtl", "labelsUp", "labelsDown", "inc", "exp", "keyTag", "signer", "alg",
-            "sigBit", "typeCovered"}
-AllKEYV == {"genuine", "otherKey", "revoked", "notZoneKey", "wrongOwner", "wrongAlg", "unsupportedAlg"}
-
-ASSUME RRV \subseteq AllRRV /\ SIGV \subseteq AllSIGV /\ KEYV \subseteq AllKEYV
-
-Args == [rr : RRV, sig : SIGV, key : KEYV, rttl : RecTtls]
-\* the single-field mutations of the property's quantifier: at most one of rr / sig / key
-\* is not the genuine object
-SingleVariantArgs ==
-    {a \in Args : Cardinality({x \in {<<1, a.rr>>, <<2, a.sig>>, <<3, a.key>>} : x[2] # "genuine"}) <= 1}
-
----------------------------------------------------------------------------
-\* what a variant means
-
-\* the signed data reconstructed from the presented RRset equals the genuine one (C05):
-\* the case of the owner name never matters, the case of names inside the RDATA only for
-\* the types that keep it
-RrSignedGenuine(v)  == v = "genuine" \/ v = "ownerCase" \/ (v = "rdataNameCase" /\ ~NameCaseSigned)
-\* the RRset still has the owner, class and type the RRSIG belongs to
-RrBelongs(v)        == v \notin {"owner", "class", "type"}
-\* every signed field of the RRSIG RDATA and the signature are the genuine ones (the
-\* Signer's Name is signed in lower case)
-SigSignedGenuine(v) == v = "genuine" \/ v = "signerCase"
-SigInc(v)     == IF v = "inc" THEN IncAlt ELSE Inc
-SigExp(v)     == IF v = "exp" THEN ExpAlt ELSE Exp
-SigOrigTtl(v) == IF v = "origTtl" THEN OrigTtlAlt ELSE OrigTtl
-\* the DNSKEY: authenticated zone key, not revoked, usable
-KeyStateOk(v) == v \in {"genuine", "wrongOwner"}   \* wrongOwner is a fine key, of another name
-\* RFC 4035 5.3.1: Signer's Name, Algorithm, Key Tag match owner, algorithm, tag of the DNSKEY
-KeyMatches(s, k) == s \notin {"keyTag", "signer", "alg"} /\ k = "genuine"
-
-Min2(a, b) == IF a < b THEN a ELSE b
-
-\* RFC 4035 5.3.1 without the two time conditions
-Structural(a) ==
-    /\ RrBelongs(a.rr)
-    /\ a.sig \notin {"typeCovered", "labelsUp"}
-    /\ KeyMatches(a.sig, a.key)
-\* RFC 4035 5.3.3, abstracted: the signature verifies iff the reconstructed signed data is
-\* what was signed and the key is the signing key
-CryptoOk(a) == RrSignedGenuine(a.rr) /\ SigSignedGenuine(a.sig) /\ a.key = "genuine"
-
-InWindow(inc, exp, t)    == SLE(M, inc, t) /\ SLE(M, t, exp)
-\* RFC 1982 leaves the comparison at distance M/2 undefined: either answer
-MayBeInWindow(inc, exp, t) ==
-    (SLE(M, inc, t) \/ SUndef(M, inc, t)) /\ (SLE(M, t, exp) \/ SUndef(M, t, exp))
-Remaining(exp, t) == SDiff(M, t, exp)
+EXTENDS Naturals, Sequences, FiniteSets, SigSerial, SigRules
 
 ---------------------------------------------------------------------------
 VARIABLES
@@ -118,26 +52,28 @@ vars == <<clk, mono, cache, pc, arg, res, last, estab, ncall>>
 
 NoCall == [none |-> TRUE]
 NoArg  == [rr |-> "genuine", sig |-> "genuine", key |-> "genuine", rttl |-> 0]
+NoRes  == [verdict |-> "none", ttl |-> 0]
 
 KeyOf(a) ==
     IF CacheRule = "asis" /\ a.rr = "rdataNameCase" THEN <<"genuine", a.sig>> ELSE <<a.rr, a.sig>>
 
 Init ==
     /\ clk \in ClkStarts /\ mono = 0 /\ cache = <<>>
-    /\ pc = "idle" /\ arg = NoArg /\ res = [verdict |-> "none", ttl |-> 0]
+    /\ pc = "idle" /\ arg = NoArg /\ res = NoRes
     /\ last = NoCall /\ estab = FALSE /\ ncall = 0
 
 Call(a) ==
     /\ pc = "idle" /\ a \in ArgSet /\ ncall < MaxCalls
     /\ pc' = "lookup" /\ arg' = a /\ ncall' = ncall + 1
-    /\ UNCHANGED <<clk, mono, cache, res, last, estab>>
+    /\ last' = NoCall
+    /\ UNCHANGED <<clk, mono, cache, res, estab>>
 
 Finish(v, t, cached) ==
     /\ last' = [arg |-> arg, clk |-> clk, verdict |-> v, ttl |-> t, cached |-> cached]
     /\ estab' = (estab \/ (RrSignedGenuine(arg.rr) /\ SigSignedGenuine(arg.sig) /\ arg.key = "genuine"
                            /\ InWindow(Inc, Exp, clk)))
     /\ UNCHANGED ncall
-    /\ pc' = "idle"
+    /\ pc' = "idle" /\ arg' = NoArg /\ res' = NoRes
 
 Fresh(e) == IF CacheRule = "required" THEN mono <= e.until ELSE mono < e.until
 
@@ -146,7 +82,7 @@ CacheHit ==
     /\ LET e == cache[KeyOf(arg)]
            t == IF CacheRule = "required" THEN Min2(e.ttl, e.until - mono) ELSE e.ttl IN
        Finish(e.verdict, IF e.verdict = "Secure" THEN t ELSE 0, TRUE)
-    /\ UNCHANGED <<clk, mono, cache, arg, res>>
+    /\ UNCHANGED <<clk, mono, cache>>
 
 CacheMiss ==
     /\ pc = "lookup" /\ ~(KeyOf(arg) \in DOMAIN cache /\ Fresh(cache[KeyOf(arg)]))
@@ -190,13 +126,13 @@ CacheInsert ==
            k == KeyOf(arg) IN
        cache' = [x \in (DOMAIN cache) \cup {k} |-> IF x = k THEN e ELSE cache[x]]
     /\ Finish(res.verdict, res.ttl, FALSE)
-    /\ UNCHANGED <<clk, mono, arg, res>>
+    /\ UNCHANGED <<clk, mono>>
 
 \* a cache is never obliged to remember
 CacheDecline ==
     /\ pc = "insert"
     /\ Finish(res.verdict, res.ttl, FALSE)
-    /\ UNCHANGED <<clk, mono, cache, arg, res>>
+    /\ UNCHANGED <<clk, mono, cache>>
 
 Advance(d) ==
     /\ pc = "idle" /\ d \in Steps /\ mono + d <= MaxMono
@@ -221,18 +157,6 @@ Spec == Init /\ [][Next]_vars
 (***************************************************************************)
 Secure == last # NoCall /\ last.verdict = "Secure"
 
-\* requirement-level: may a call with arguments a at clock t return Secure, given whether an
-\* earlier call established the verdict (est)?  And the largest TTL it may then carry.
-MaySecure(a, t, est) ==
-    /\ RrSignedGenuine(a.rr) /\ RrBelongs(a.rr) /\ SigSignedGenuine(a.sig)
-    /\ (a.key = "genuine" \/ est)
-    /\ MayBeInWindow(Inc, Exp, t)
-TtlMax(t) == Remaining(Exp, t)
-\* what the RFC 4035 5.3 procedure yields when nothing is cached and no comparison is undefined
-FreshSecure(a, t) ==
-    KeyStateOk(a.key) /\ Structural(a) /\ InWindow(SigInc(a.sig), SigExp(a.sig), t) /\ CryptoOk(a)
-Establishes(a, t) ==
-    RrSignedGenuine(a.rr) /\ SigSignedGenuine(a.sig) /\ a.key = "genuine" /\ InWindow(Inc, Exp, t)
 
 \* Secure only for the exact RRset and RRSIG, and a key that is the authenticated, non-revoked
 \* zone key matching the RRSIG.  A verdict may come from the cache, where no key is looked at:
@@ -254,7 +178,7 @@ C06_TtlBound ==
 \* Anti-strictness witnesses (must be reachable): bits that are not signed do not by
 \* themselves stand in the way of Secure; a verdict can be served from the cache.
 C06_UnsignedBitsFree_Witness ==
-    Secure /\ last.arg.rr = "ownerCase" /\ last.arg.sig = "signerCase" /\ last.arg.rttl < OrigTtl
+    Secure /\ last.arg.rr = "ownerCase" /\ last.arg.rttl < OrigTtl /\ last.ttl = last.arg.rttl
 C06_CachedSecure_Witness == Secure /\ last.cached /\ last.ttl > 0
 
 \* the RFC procedure itself never exceeds what the requirements allow
